@@ -104,12 +104,121 @@ async fn load_phase<S: Storage>(store: S, backend: &str, out: &mut Vec<Value>) {
     }
 }
 
+/// One line to the acknowledgement log, written straight through to the file (no user-space buffer): what is in the file
+/// when the process is killed is exactly what had been written.
+fn log_line(f: &mut std::fs::File, v: Value) {
+    use std::io::Write;
+    f.write_all(format!("{}\n", v).as_bytes()).expect("ack log");
+}
+
+/// A request stream that is meant to be cut off by SIGKILL at an arbitrary moment: before every request a `try` line
+/// (what it would leave behind), after its acknowledgement an `ack` line.  Stamps increase strictly, so the operation
+/// acknowledged last on a document is the greatest one.  Some bulk requests carry thousands of documents, so that the
+/// kill often lands in the middle of a request.
+async fn kill_write_phase<S: Storage>(store: S, backend: &str, seed: u64, log: &str) {
+    let mut f = std::fs::OpenOptions::new().create(true).append(true).open(log).expect("open ack log");
+    let mut rng = StdRng::seed_from_u64(seed);
+    let group = KeyspaceGroup::new(Arc::new(store), Clock::new(1)).await;
+    let pool: Vec<u64> = vec![0, 1, 2, 42, 255, 256, 257, 65_536, i64::MAX as u64, i64::MAX as u64 + 1, u64::MAX - 1, u64::MAX,
+                              rng.gen(), rng.gen::<u64>() | (1 << 63), 1 << 32, 1 << 40];
+    let mut t = 1_000u64;
+    let mut stamp = || {
+        t += 1;
+        HLCTimestamp::new(Duration::from_millis(t * 4), 0, 1)
+    };
+    let doc = |id: u64, ts: HLCTimestamp| Document::new(id, ts, format!("{id}-{ts}").into_bytes());
+    let mut actors = vec![];
+    for ks in KEYSPACES {
+        actors.push(group.get_or_create_keyspace(ks).await);
+    }
+    println!("ready");
+    let mut n = 0u64;
+    loop {
+        n += 1;
+        let ki = rng.gen_range(0..KEYSPACES.len());
+        let actor = &actors[ki];
+        let ts = stamp();
+        let ids: Vec<u64> = match rng.gen_range(0..10) {
+            0 => { let base = 100_000 + rng.gen_range(0..4u64) * 1_000; (base..base + rng.gen_range(500..3_000u64)).collect() },
+            1 | 2 => (0..rng.gen_range(2..5)).map(|_| pool[rng.gen_range(0..pool.len())]).collect(),
+            _ => vec![pool[rng.gen_range(0..pool.len())]],
+        };
+        let put = rng.gen_bool(0.6);
+        // a bulk request names a document once (the last version of a repeated id is C02's and C17's subject)
+        let mut ids = ids;
+        ids.sort();
+        ids.dedup();
+        log_line(&mut f, json!({"ev": "try", "n": n, "backend": backend, "ks": KEYSPACES[ki], "kind": if put { "put" } else { "del" },
+                                "eff": ids.iter().map(|i| (i.to_string(), json!(format!("{i}@{ts}")))).collect::<serde_json::Map<String, Value>>()}));
+        let source = rng.gen_range(0..2);
+        if ids.len() == 1 && put {
+            actor.send(Set { source, doc: doc(ids[0], ts), ctx: None, _marker: PhantomData::<S> }).await.expect("put");
+        } else if ids.len() == 1 {
+            actor.send(Del { source, doc: DocumentMetadata::new(ids[0], ts), _marker: PhantomData::<S> }).await.expect("delete");
+        } else if put {
+            let docs: DocVec<Document> = ids.iter().map(|i| doc(*i, ts)).collect();
+            actor.send(MultiSet { source, docs, ctx: None, _marker: PhantomData::<S> }).await.expect("bulk put");
+        } else {
+            let docs: DocVec<DocumentMetadata> = ids.iter().map(|i| DocumentMetadata::new(*i, ts)).collect();
+            actor.send(MultiDel { source, docs, _marker: PhantomData::<S> }).await.expect("bulk delete");
+        }
+        log_line(&mut f, json!({"ev": "ack", "n": n, "backend": backend, "ks": KEYSPACES[ki]}));
+    }
+}
+
+/// After a kill: what a fresh process rebuilds, and what the storage's own metadata scan says.
+async fn load_after_kill<S: Storage>(store: S, backend: &str, out: &mut Vec<Value>) {
+    let store = Arc::new(store);
+    let group = KeyspaceGroup::new(store.clone(), Clock::new(1)).await;
+    let started = group.load_states_from_storage().await.is_ok();
+    for ks in KEYSPACES {
+        let actor = group.get_or_create_keyspace(ks).await;
+        let set = decode_set(&actor.send(Serialize).await.expect("serialize"));
+        let (live, dead) = report(&set);
+        let mut unreadable = 0u64;
+        for (id, ts) in set.verif_project().entries {
+            match store.get(ks, id).await {
+                Ok(Some(d)) if d.last_updated() == ts && d.data() == format!("{id}-{ts}").as_bytes() => {},
+                _ => unreadable += 1,
+            }
+        }
+        let mut meta_live = vec![];
+        let mut meta_dead = vec![];
+        match store.iter_metadata(ks).await {
+            Ok(it) => for (id, ts, tomb) in it {
+                if tomb { meta_dead.push(format!("{id}@{ts}")) } else { meta_live.push(format!("{id}@{ts}")) }
+            },
+            Err(_) => unreadable += 1_000_000,
+        }
+        meta_live.sort();
+        meta_dead.sort();
+        out.push(json!({"ev": "after_kill", "backend": backend, "ks": ks, "started": started, "live": live, "dead": dead,
+                        "meta_live": meta_live, "meta_dead": meta_dead, "unreadable": unreadable}));
+    }
+}
+
 pub async fn run() {
     let phase = arg_or("--phase", "write");
     let dir = PathBuf::from(arg_or("--dir", "/dev/shm/verif-restart"));
     let seed: u64 = arg_or("--seed", "1").parse().unwrap();
     let mut out = vec![];
-    if phase == "write" {
+    if phase == "killwrite" || phase == "killload" {
+        let backend = arg_or("--backend", "sqlite");
+        if phase == "killwrite" {
+            let _ = std::fs::remove_dir_all(&dir);
+            std::fs::create_dir_all(dir.join("lmdb")).unwrap();
+            let log = arg_or("--log", "/dev/shm/verif-restart/ack.log");
+            if backend == "sqlite" {
+                kill_write_phase(SqliteStorage::open(dir.join("sqlite.db")).await.expect("open sqlite"), "sqlite", seed, &log).await;
+            } else {
+                kill_write_phase(LmdbStorage::open(dir.join("lmdb")).await.expect("open lmdb"), "lmdb", seed, &log).await;
+            }
+        } else if backend == "sqlite" {
+            load_after_kill(SqliteStorage::open(dir.join("sqlite.db")).await.expect("open sqlite"), "sqlite", &mut out).await;
+        } else {
+            load_after_kill(LmdbStorage::open(dir.join("lmdb")).await.expect("open lmdb"), "lmdb", &mut out).await;
+        }
+    } else if phase == "write" {
         let _ = std::fs::remove_dir_all(&dir);
         std::fs::create_dir_all(dir.join("lmdb")).unwrap();
         write_phase(SqliteStorage::open(dir.join("sqlite.db")).await.expect("open sqlite"), "sqlite", seed, &mut out).await;
